@@ -39,3 +39,9 @@ register_simp_attr gen_risk
 register_simp_attr gen_metrics
 /-- generated definitions of group `clock` (tools/rust2lean_sm.py) -/
 register_simp_attr gen_clock
+/-- generated definitions of group `orders` (tools/rust2lean_sm.py, Generated/Machines3.lean) -/
+register_simp_attr gen_orders
+/-- generated definitions of group `mock` (tools/rust2lean_sm.py, Generated/Machines3.lean) -/
+register_simp_attr gen_mock
+/-- generated definitions of group `connectivity_updates` (tools/rust2lean_sm.py, Generated/Machines3.lean) -/
+register_simp_attr gen_connectivity_updates
